@@ -534,7 +534,7 @@ func (e *Evaluator) evalFor(f *parser.ForStmt) (value, error) {
 		loopVarName = f.LoopVar.Name
 	}
 	for r.next(e.scope, loopVarName) {
-		val, err := e.eval(f.Block)
+		val, err := e.evalLoopBlock(f.Block)
 		if err != nil {
 			return nil, err
 		}
@@ -546,6 +546,14 @@ func (e *Evaluator) evalFor(f *parser.ForStmt) (value, error) {
 		}
 	}
 	return &noneVal{}, nil
+}
+
+// evalLoopBlock evaluates the body of a for loop in a scope of its own so
+// that variables declared in the body do not outlive the iteration.
+func (e *Evaluator) evalLoopBlock(block *parser.BlockStatement) (value, error) {
+	e.pushScope()
+	defer e.popScope()
+	return e.eval(block)
 }
 
 func (e *Evaluator) newRange(f *parser.ForStmt) (ranger, error) {
